@@ -28,6 +28,8 @@ def strategy(tier):
     def full(draw):
         c = draw(base)
         c["explicit"] = draw(st.integers(0, 4)) > 0
+        # a sibling question asked first on the SAME Pervaporation object (the law must hold whatever was asked before)
+        c["warm"] = draw(st.sampled_from([None, None, "basis", "precision", "permeances", "mode", "temperature"]))
         c["scale"] = draw(st.one_of(st.integers(-10, 10).map(lambda j: 2.0**j), gen.loguniform(1e-3, 1e3)))
         return c
 
@@ -68,13 +70,30 @@ def check(case):
 
     pv, mix = make_pv(case)
     explicit = case.get("explicit", True)
+    warm = case.get("warm")
+    if warm:
+        sib = dict(case)
+        if warm == "basis":
+            sib["basis"] = "molar" if case["basis"] == "weight" else "weight"
+        elif warm == "precision":
+            sib["precision"] = min(case["precision"] * 37.0, 1e-2)
+        elif warm == "permeances":
+            sib["p1"], sib["p2"] = case["p2"], case["p1"]
+        elif warm == "mode":
+            sib["perm"] = {"mode": "vacuum", "T": None, "p": None} if case["perm"]["mode"] != "vacuum" else {"mode": "pressure", "T": None, "p": 1.0}
+        elif warm == "temperature":
+            sib["T"] = case["T"] + 7.0
+        try:
+            solve(pv, sib, explicit=explicit, keep=False)
+        except EvaluationCap:
+            pass
     try:
         out, tr = solve(pv, case, explicit=explicit)
     except EvaluationCap:
         raise Discard("evaluation cap reached (termination is C10's subject)")
     mode = case["perm"]["mode"]
     classes = [case["model"], mode, "builtin" if "builtin" in case["mixture"] else "synthetic",
-               "explicit" if explicit else "membrane"]
+               "explicit" if explicit else "membrane", "warm:%s" % warm]
     if is_raised(out):
         if out.type not in ("ValueError",):
             classes.append("raised:" + out.type)
